@@ -106,7 +106,7 @@ func (e *C01) getPlan(tier string, seed uint64) *c01Plan {
 func (e *C01) ID() string    { return "C01" }
 func (e *C01) Level() string { return "fault_enumeration" }
 func (e *C01) Rule() string {
-	return "cases: (a) for every corpus/generated file x natural entry point: every cut point k (dense prefix, every walker-found structure boundary +-1, seeded sample, len-1, len) x 5 terminal reader behaviours (EOF, data+EOF, injected error, ErrUnexpectedEOF, failing Seek); (b) structure-aware malformations (1-3 operators at walker-found size/count/offset/type fields, flips, deletions, duplications, splices) run through the file's natural entries plus two random entries and random reader kinds / chunk schedules; (c) random byte strings of length 0..4096 through every entry; (d) grammar-based shapes: tightly packed trees of the box types the ISOBMFF reader dispatches on (meta/hdlr/pitm/iinf+infe/iloc/iref/iprp, moov/Canon uuid/CNCV/CTBO/CMT1-4/THMB, PRVW) and small TIFF directories over the tags the Exif reader interprets, with boundary-biased sizes, counts, versions, field widths, types and offsets in several cooperating fields at once, through the family's natural entries with clean and faulting readers; every 40th shape is one tiny unit (a minimal box of a known type in a looping context, APP1 segment, PNG chunk, IFD entry, one-entry IFD chain, XMP token) tiled to 20..300 KB, another 40th is 1..2 MB of one loop-targeted pattern (SOI runs, fill bytes, zero-size boxes, partial signatures), run with the goroutine stack limit lowered from 1 GB to 16 MB. A call is non-trivial when it consumed more than 24 bytes or returned a non-sniffing error; distinct = distinct (entry, outcome class with digits stripped, log4 bucket of bytes delivered)."
+	return "cases: (a) for every corpus/generated file x natural entry point: every cut point k (dense prefix, every walker-found structure boundary +-1, seeded sample, len-1, len) x 5 terminal reader behaviours (EOF, data+EOF, injected error, ErrUnexpectedEOF, failing Seek); (b) structure-aware malformations (1-3 operators at walker-found size/count/offset/type fields, flips, deletions, duplications, splices; a quarter rewrite typed Exif *values* of a structurally intact file instead: rationals with zero / all-ones / sign-bit numerators and denominators, date texts with two-character groups no calendar has, texts without terminator, integers at the extremes of their width) run through the file's natural entries plus two random entries and random reader kinds / chunk schedules; (c) random byte strings of length 0..4096 through every entry; (d) grammar-based shapes: tightly packed trees of the box types the ISOBMFF reader dispatches on (meta/hdlr/pitm/iinf+infe/iloc/iref/iprp, moov/Canon uuid/CNCV/CTBO/CMT1-4/THMB, PRVW) and small TIFF directories over the tags the Exif reader interprets, with boundary-biased sizes, counts, versions, field widths, types and offsets in several cooperating fields at once, through the family's natural entries with clean and faulting readers; every 40th shape is one tiny unit (a minimal box of a known type in a looping context, APP1 segment, PNG chunk, IFD entry, one-entry IFD chain, XMP token) tiled to 20..300 KB, another 40th is 1..2 MB of one loop-targeted pattern (SOI runs, fill bytes, zero-size boxes, partial signatures), run with the goroutine stack limit lowered from 1 GB to 16 MB. A call is non-trivial when it consumed more than 24 bytes or returned a non-sniffing error; distinct = distinct (entry, outcome class with digits stripped, log4 bucket of bytes delivered)."
 }
 func (e *C01) Assumptions() []string {
 	return []string{"panics and fatal errors are observed by recover() in the worker and by the exit status/stderr of the isolated worker process",
@@ -186,6 +186,13 @@ func (e *C01) Run(c *core.Ctx, idx int) {
 			data, desc = gen.Splice(r, f.Data, d.Data, f.Fields)
 		} else {
 			data, desc = gen.Mutate(r, f.Data, f.Fields, r.Pick(1, 1, 1, 2, 2, 3))
+		}
+		if idx%4 == 1 {
+			// the values instead of the structure: zero denominators, impossible dates, extremes
+			if d, s, ok := gen.HostileValues(r, f.Data, r.Pick(1, 1, 2, 3, 6)); ok {
+				data, desc = d, s
+				c.Rec.Count("hostile_value_inputs", 1)
+			}
 		}
 		ents := append([]int(nil), p.pop.natural[fi]...)
 		ents = append(ents, r.Intn(len(p.pop.entries)), r.Intn(len(p.pop.entries)))
